@@ -518,12 +518,12 @@ def dunder (m : Mode) (op : Op) (a b : Atom) (fuel : Nat) : PyR :=
       | .error e => e
     | .str t => .ok (sCmp op s t)
     | .dbl y =>
-      match strToDouble s with         -- float(self.value)
+      match strToDouble s with         -- op(get_double(self.value), other)
       | .ok x => .ok (dCmp op x y)
       | .error e => e
     | .flt y =>
-      match strToFloat s with          -- Float.make(self.value)
-      | .ok x => numCmp op (.flt x) b x y
+      match strToDouble s with         -- op(get_double(self.value), other): a float against a Float
+      | .ok x => .ok (dCmp op x y)
       | .error e => e
     | .dec q =>
       match strToDouble s with         -- op(get_double(self.value), float(other))
@@ -697,13 +697,15 @@ def cmpCategory : Atom → Nat
 def kindName : Atom → Nat
   | .hex _ => 1 | .b64 _ => 2 | .date _ => 3 | .dtm _ => 4 | .time _ => 5 | _ => 0
 
-/-- the check added after the `match` (both operands typed): same class, and for binaries and
-dates/times the same type name -/
-def categoryOK (a b : Atom) : Bool :=
+/-- the check added after the `match` (both operands typed): same class; for binaries and dates/times
+the same type name; for durations under an ordering operator the same subclass, and not xs:duration -/
+def categoryOK (op : Op) (a b : Atom) : Bool :=
   match a, b with
   | .ua _, _ => true
   | _, .ua _ => true
-  | _, _ => decide (cmpCategory a = cmpCategory b) && decide (kindName a = kindName b)
+  | _, _ =>
+    decide (cmpCategory a = cmpCategory b) && decide (kindName a = kindName b) &&
+    !(a.isDur && op.isOrd && !(match a, b with | .ymd _, .ymd _ => true | .dtd _, .dtd _ => true | _, _ => false))
 
 /-- the `match op1` part of one pair of base.py:557-588: the isinstance-ordered dispatch; returns the
 (possibly converted) pair, or TypeError -/
@@ -712,10 +714,13 @@ def iterMatch (a b : Atom) : Except PyR (Atom × Atom) :=
   | .str _ | .uri _ => if isStrLike3 b then .ok (a, b) else .error .typeErr
   | .bool _ =>
     if isStr b || isInteger b || isQN b || isUri b then .error .typeErr else .ok (a, b)
-  | .int _ =>
-    if isStr b || isQN b || isUri b || isBoolA b then .error .typeErr else .ok (a, b)
+  | .int v =>
+    match b with
+    | .dbl _ | .flt _ => .ok (.dbl (toD64 v), b)          -- yield get_double(op1), op2
+    | _ => if isStr b || isQN b || isUri b || isBoolA b then .error .typeErr else .ok (a, b)
   | .dbl _ | .flt _ =>
     match b with
+    | .int v => .ok (a, .dbl (toD64 v))                   -- yield op1, get_double(op2)
     | .dec q => .ok (a, .dbl (toD64 q))
     | _ => if isStr b || isQN b || isUri b || isBoolA b then .error .typeErr else .ok (a, b)
   | .dec q =>
@@ -733,10 +738,10 @@ def iterMatch (a b : Atom) : Except PyR (Atom × Atom) :=
   | _ => .ok (a, b)
 
 /-- one pair of iter_comparison_data: the dispatch, then the comparability check -/
-def iterCheck (a b : Atom) : Except PyR (Atom × Atom) :=
+def iterCheck (op : Op) (a b : Atom) : Except PyR (Atom × Atom) :=
   match iterMatch a b with
   | .error e => .error e
-  | .ok p => if categoryOK a b then .ok p else .error .typeErr
+  | .ok p => if categoryOK op a b then .ok p else .error .typeErr
 
 def Atom.fillTz (itz : Option Int) : Atom → Atom
   | .date v => .date (v.fill itz) | .dtm v => .dtm (v.fill itz) | .time v => .time (v.fill itz)
@@ -749,7 +754,7 @@ def fillPair (itz : Option Int) (a b : Atom) : Atom × Atom :=
 
 /-- the comparison of one generated pair in the non-compatibility loop -/
 def pairGeneral (m : Mode) (op : Op) (a b : Atom) : R :=
-  match iterCheck a b with
+  match iterCheck op a b with
   | .error e => liftPy e
   | .ok (x, y) => liftPy (pyOp m op x y)
 
@@ -872,10 +877,12 @@ def Atom.cls : Atom → Cls
   | .dtm _ => .dtm | .time _ => .time | .dur .. => .dur | .ymd _ => .ymd | .dtd _ => .dtd
   | .hex _ => .hex | .b64 _ => .b64
 
-/-- `get_double(x)` of an int / Decimal operand (_xpath2_operators.py:542-545) -/
+/-- `get_double(x)` of an int / Decimal operand (_xpath2_operators.py:542-545; helpers.py:293-294:
+an integer goes through its string form, so beyond the double range it becomes INF, no OverflowError) -/
 def getDouble (a : Atom) : Except PyR Atom :=
   match a with
-  | .int _ | .dec _ => (pyFloat a).map .dbl
+  | .int v => .ok (.dbl (toD64 v))
+  | .dec q => .ok (.dbl (toD64 q))
   | _ => .ok a
 
 def isIntDec : Atom → Bool | .int _ => true | .dec _ => true | _ => false
